@@ -16,3 +16,11 @@ Definition c13_case (ud : list (pystr * pystr * pystr)) (ot : list (path * list 
 (* the individual predicates, for table-level correspondence *)
 Definition c13_skip (rxt : list path) (ex inc : list pystr) (p : path) : sx :=
   sx_bool (skip_this (tbl_paths rxt) (add_root_to_paths ex) (add_root_to_paths inc) p).
+
+(* the same with the DeepHash-side exclusion of set members; rxht = the (set path, member index) pairs some
+   pattern matches *)
+Definition tbl_hits (t : list (path * nat)) (p : path) (i : nat) : bool :=
+  existsb (fun x => path_eqb (fst x) p && Nat.eqb (snd x) i) t.
+Definition c13_case_h (ud : list (pystr * pystr * pystr)) (ot : list (path * list opcode))
+    (rxt : list path) (rxht : list (path * nat)) (ex inc : list pystr) (c : cfg) (t1 t2 : value) : sx :=
+  sx_entries (run_filtered_h hatom_simple (tbl_udiff ud) (tbl_ops ot) (tbl_paths rxt) (tbl_hits rxht) ex inc c t1 t2).
